@@ -6,6 +6,7 @@ import (
 	"sort"
 	"strings"
 	"sync"
+	"unicode"
 	"unicode/utf8"
 
 	"gaeaverif/harness/core"
@@ -20,23 +21,33 @@ import (
 // C06 — the token pre-check preBuildUnshardPlan versus the parser-based
 // analysis plan.BuildPlan.
 //
-// Line: (fp (rules (DB TABLE KIND)…) (phy (DB PHY)…) (db DB) (st TYPE) (sql SQL) (full KIND) (tabs (SCHEMA NAME)…))
+// Line: (fp (rules (DB TABLE KIND)…) (phy (DB PHY)…) (db DB) (st TYPE) (sql SQL) (full KIND) (tabs (SCHEMA NAME)…) [(segs SEG…)])
 //   rules/phy describe the namespace (Exec builds it with NewNamespace and checks
 //   that the router holds exactly these rules); TYPE = parser.Preview(SQL) and
 //   full = the outcome of parser + plan.BuildPlan, both computed when the line is
 //   generated; Exec recomputes and reports them.  tabs = the TableName nodes the
 //   parser reports, in visiting order, as written (the model runs plan.Checker's
 //   scan on them; Exec reports what the real Checker finds).
-// Output: ((st TYPE) (tok TOKEN…) (pre U DB | pre N) (full KIND) (asm T) (chk nodb|shard|unshard))
+//   segs (statements generated from the grammar of lean/GaeaVerif/Model/TabRefC06.lean): the
+//   statement as segments — (t TEXT), (v t|f DIGITS) = "/*!" + optional M + version digits,
+//   (r Q NAME), (rs Q SCHEMA GAP Q NAME) table references, Q = b bare | q back-quoted, NAME as
+//   the parser is expected to report it; the model renders them and checks the text is SQL.
+// Output: ((st TYPE) (tok TOKEN…) (pre U DB | pre N) (full KIND) (asm T) (chk nodb|shard|unshard) (gram T|-))
+//   asm: the real word scan of MentionsShardTable sees every table name the parser reports;
+//   gram: the parser reports exactly the references of the segments (when the statement parses).
 
 func init() {
 	core.Register(&core.Property{
 		ID: "C06",
-		Rule: "token-level grammar: SELECT (comma joins, JOIN … ON, sub-queries in FROM and WHERE, UNION, several FROMs), INSERT/REPLACE (with and " +
-			"without INTO, column lists, `(` glued to the table, INSERT … SELECT), UPDATE (aliases, multi-table, modifiers), DELETE (multi-table, USING), " +
-			"over a vocabulary of sharded, linked, global, other-database and unsharded tables in varying letter case, with and without schema qualification " +
-			"and back-quotes, comments and line breaks glued to names, x namespaces (rules in two databases, no rules, renamed physical databases, odd table names) " +
-			"x session databases (with rules, without, none); plus token soup; non-trivial = the pre-check answered unshard or the parser saw a sharded table",
+		Rule: "statements built from a grammar of segments (text, table references, executable-comment openings): SELECT (comma joins, JOIN … ON, " +
+			"sub-queries in FROM and WHERE, UNION, several FROMs), INSERT/REPLACE (with and without INTO, column lists, `(` glued to the table, INSERT … SELECT), " +
+			"UPDATE (aliases, multi-table, modifiers), DELETE (multi-table, USING), LOCK/TRUNCATE/RENAME/CREATE … LIKE/EXPLAIN/DESCRIBE/SHOW COLUMNS/HANDLER, " +
+			"over a vocabulary of sharded, linked, global, other-database and unsharded tables (names that need quoting: spaces, dashes, dots, back-quotes; " +
+			"non-ASCII names; sub-table names tbl_0001) in varying letter case, bare or back-quoted with doubled back-quotes, with and without schema " +
+			"qualification (blanks and comments around the dot), glued to punctuation, comments, line breaks, Unicode white space, the version number of an " +
+			"executable comment, inside /*!NNNNN … */ and beside string literals that hold comment marks, x namespaces (rules in two databases, no rules, " +
+			"renamed physical databases, odd table names, names that are not one word) x session databases (with rules, without, none); plus token soup; " +
+			"non-trivial = the pre-check answered unshard or the parser saw a sharded table",
 		Generate: genC06,
 		Exec:     execC06,
 		Trivial: func(in core.Sexp, out string) bool {
@@ -45,7 +56,7 @@ func init() {
 		Assumptions: []string{
 			"statement texts are valid UTF-8 and contain no cased non-ASCII letters other than U+0130, U+212A, U+017F",
 			"parser.Preview's statement kind and the parser-based analysis (parser + plan.BuildPlan / plan.Checker) are taken as given: they are the reference the pre-check is compared with",
-			"parser_tables_are_words: every table name the parser reports for a statement is a maximal run of identifier characters of its text (checked on every generated statement: field asm of the output)",
+			"the parser reports, for a statement rendered from the segment grammar of Model/TabRefC06.lean, the table references of the segments (checked on every statement generated from the grammar: field gram); for the other generated statements: the word scan sees every table name the parser reports (field asm; a theorem for statements of the grammar)",
 		},
 	})
 }
@@ -70,6 +81,10 @@ var c06Cfgs = []c06Cfg{
 		{"db_ks", "t$1", "hash", ""}, {"db_ks", "表", "hash", ""}, {"db_ks", "t1", "hash", ""}, {"db_ks", "k", "hash", ""}, {"db_ks", "i", "global", ""},
 		// every digit and both ends of the letter ranges inside a name (identifier-character boundaries)
 		{"db_ks", "t_2020", "hash", ""}, {"db_ks", "az_0189_AZ", "hash", ""}}},
+	// names that are not one word (they must be quoted), next to an ordinary one
+	{name: "E", dbs: []string{"db_ks", "db_plain"}, rules: []c06Rule{
+		{"db_ks", "t_shard", "hash", ""}, {"db_ks", "Order-Items", "hash", ""}, {"db_ks", "my table", "hash", ""}, {"db_ks", "a`b", "hash", ""},
+		{"db_ks", "x.y.z", "hash", ""}, {"db_ks", "t 表", "global", ""}}},
 }
 
 type c06Env struct {
@@ -173,16 +188,11 @@ func c06PhySexp(e *c06Env) core.Sexp {
 }
 
 type c06TableCollector struct {
-	names []string
-	tabs  [][2]string
+	tabs [][2]string
 }
 
 func (c *c06TableCollector) Enter(n ast.Node) (ast.Node, bool) {
 	if t, ok := n.(*ast.TableName); ok {
-		c.names = append(c.names, t.Name.O)
-		if t.Schema.O != "" {
-			c.names = append(c.names, t.Schema.O)
-		}
 		c.tabs = append(c.tabs, [2]string{t.Schema.O, t.Name.O})
 	}
 	return n, false
@@ -190,11 +200,14 @@ func (c *c06TableCollector) Enter(n ast.Node) (ast.Node, bool) {
 func (c *c06TableCollector) Leave(n ast.Node) (ast.Node, bool) { return n, true }
 
 func c06IsIdent(r rune) bool {
-	return r == '_' || r == '$' || r >= 0x80 || ('0' <= r && r <= '9') || ('a' <= r && r <= 'z') || ('A' <= r && r <= 'Z')
+	if r >= 0x80 {
+		return !unicode.IsSpace(r)
+	}
+	return r == '_' || r == '$' || ('0' <= r && r <= '9') || ('a' <= r && r <= 'z') || ('A' <= r && r <= 'Z')
 }
 
 // c06Full runs the parser-based analysis: the kind of plan BuildPlan returns,
-// and whether every table/schema name the parser reports is a word of the text.
+// and whether the word scan of MentionsShardTable sees every table name the parser reports.
 func c06Full(e *c06Env, db, sql string) (kind string, asm bool, tabs [][2]string, chk string) {
 	defer func() {
 		if r := recover(); r != nil {
@@ -209,12 +222,8 @@ func c06Full(e *c06Env, db, sql string) (kind string, asm bool, tabs [][2]string
 	}
 	col := &c06TableCollector{}
 	stmt.Accept(col)
-	words := map[string]bool{}
-	for _, w := range strings.FieldsFunc(sql, func(r rune) bool { return !c06IsIdent(r) }) {
-		words[w] = true
-	}
-	for _, n := range col.names {
-		if !words[n] {
+	for _, t := range col.tabs {
+		if !plan.VerifNameSeen(sql, t[1]) {
 			asm = false
 		}
 	}
@@ -294,20 +303,150 @@ func execC06(in core.Sexp) string {
 		// the parser no longer reports the tables the line was generated with
 		return fmt.Sprintf("(tabs-changed %s)", c06TabsSexp(tabs))
 	}
-	return fmt.Sprintf("((st %d) %s %s (full %s) (asm %s) (chk %s))", st, c22Tokens(tokens), pre, full, core.B(asm), chk)
+	gram := "-"
+	if len(in.List) > 8 && full != "parse-err" && full != "panic" {
+		gram = core.B(c06SameTables(tabs, c06SegRefs(in.Nth(8)))).Atom
+	}
+	return fmt.Sprintf("((st %d) %s %s (full %s) (asm %s) (chk %s) (gram %s))", st, c22Tokens(tokens), pre, full, core.B(asm), chk, gram)
+}
+
+// the (schema, name) pairs of the table references among the segments
+func c06SegRefs(segs core.Sexp) [][2]string {
+	var refs [][2]string
+	for _, sg := range segs.List[1:] {
+		switch sg.Head() {
+		case "r":
+			refs = append(refs, [2]string{"", sg.Nth(2).Str()})
+		case "rs":
+			refs = append(refs, [2]string{sg.Nth(2).Str(), sg.Nth(5).Str()})
+		}
+	}
+	return refs
+}
+
+// the same set of (schema, name) pairs
+func c06SameTables(a, b [][2]string) bool {
+	in := func(xs [][2]string, x [2]string) bool {
+		for _, y := range xs {
+			if x == y {
+				return true
+			}
+		}
+		return false
+	}
+	for _, x := range a {
+		if !in(b, x) {
+			return false
+		}
+	}
+	for _, x := range b {
+		if !in(a, x) {
+			return false
+		}
+	}
+	return true
 }
 
 // ---- generator ----
+//
+// Statements are composed as strings in which every table reference and every
+// executable-comment opening is a placeholder "\x01N\x02" (N indexes c06Gen.items);
+// resolve() turns the string into the statement text and its segments.
+
+type c06Item struct {
+	version   bool // "/*!" + optional M + digits
+	m         bool
+	digits    string
+	hasSchema bool
+	sq        string // "b" | "q"
+	schema    string
+	gap       string
+	q         string // "b" | "q"
+	name      string
+}
 
 type c06Gen struct {
 	g      *core.Gen
 	tables []string // vocabulary for this configuration
+	items  []c06Item
 }
 
 func (x *c06Gen) pick(xs ...string) string { return xs[x.g.Intn(len(xs))] }
 
+func c06Ident(q, name string) string {
+	if q == "q" {
+		return "`" + strings.ReplaceAll(name, "`", "``") + "`"
+	}
+	return name
+}
+
+func (it *c06Item) render() string {
+	if it.version {
+		m := ""
+		if it.m {
+			m = "M"
+		}
+		return "/*!" + m + it.digits
+	}
+	if it.hasSchema {
+		return c06Ident(it.sq, it.schema) + it.gap + c06Ident(it.q, it.name)
+	}
+	return c06Ident(it.q, it.name)
+}
+
+func (it *c06Item) sexp() core.Sexp {
+	if it.version {
+		return core.L(core.A("v"), core.B(it.m), core.Text(it.digits))
+	}
+	if it.hasSchema {
+		return core.L(core.A("rs"), core.A(it.sq), core.Text(it.schema), core.Text(it.gap), core.A(it.q), core.Text(it.name))
+	}
+	return core.L(core.A("r"), core.A(it.q), core.Text(it.name))
+}
+
+func (x *c06Gen) place(it c06Item) string {
+	x.items = append(x.items, it)
+	return fmt.Sprintf("\x01%d\x02", len(x.items)-1)
+}
+
+// resolve: the statement text and its segments; forgets the items.
+func (x *c06Gen) resolve(s string) (string, core.Sexp) {
+	var sql strings.Builder
+	segs := []core.Sexp{core.A("segs")}
+	for len(s) > 0 {
+		i := strings.IndexByte(s, 1)
+		if i < 0 {
+			i = len(s)
+		}
+		if i > 0 {
+			sql.WriteString(s[:i])
+			segs = append(segs, core.L(core.A("t"), core.Text(s[:i])))
+			s = s[i:]
+			continue
+		}
+		j := strings.IndexByte(s, 2)
+		n := 0
+		fmt.Sscanf(s[1:j], "%d", &n)
+		sql.WriteString(x.items[n].render())
+		segs = append(segs, x.items[n].sexp())
+		s = s[j+1:]
+	}
+	x.items = nil
+	return sql.String(), core.L(segs...)
+}
+
+// the first character a placeholder (or a plain string) renders to
+func (x *c06Gen) startsQuoted(s string) bool {
+	if strings.HasPrefix(s, "\x01") {
+		n := 0
+		fmt.Sscanf(s[1:strings.IndexByte(s, 2)], "%d", &n)
+		return strings.HasPrefix(x.items[n].render(), "`")
+	}
+	return strings.HasPrefix(s, "`")
+}
+
 func (x *c06Gen) recase(s string) string {
-	switch x.g.Intn(6) {
+	switch x.g.Intn(7) {
 	case 0:
 		return strings.ToUpper(s)
 	case 1:
@@ -321,34 +460,79 @@ func (x *c06Gen) recase(s string) string {
 	case 2:
 		// the two non-ASCII letters whose lower case is ASCII
 		if x.g.Intn(4) == 0 {
-			s = strings.Replace(s, "k", "K", 1)
+			s = strings.Replace(s, "k", "\u212a", 1)
 			s = strings.Replace(s, "i", "İ", 1)
 		}
+	case 3:
+		// Title case: Tbl_Ks
+		b := []rune(s)
+		up := true
+		for i, r := range b {
+			if up && r >= 'a' && r <= 'z' {
+				b[i] = r - 32
+			}
+			up = r == '_' || r == '-' || r == ' '
+		}
+		return string(b)
 	}
 	return s
 }
 
-// a table reference: vocabulary name x letter case x quoting x schema
-func (x *c06Gen) table() string {
-	name := x.recase(core.Pick(x.g, x.tables))
-	q := func(s string) string {
-		if x.g.Intn(3) == 0 {
-			return "`" + s + "`"
+func c06NeedsQuote(name string) bool {
+	if name == "" {
+		return true
+	}
+	for _, r := range name {
+		if !c06IsIdent(r) {
+			return true
 		}
-		return s
 	}
-	switch x.g.Intn(7) {
-	case 0:
-		return q(x.pick("db_ks", "db_other", "db_plain", "DB_KS", "nodb")) + "." + q(name)
-	case 1:
-		return q(x.pick("db_ks", "db_other")) + x.pick(" . ", ". ", " .") + q(name)
-	}
-	return q(name)
+	return false
 }
 
-// the glue between a keyword and a table name
+var c06Gaps = []string{".", ".", ".", " . ", ". ", " .", "./**/", "/*c*/./* c */", ".\n", " -- c\n.", "\t.\t", ".\u3000"}
+
+// a table reference (placeholder): vocabulary name x letter case x quoting x schema
+func (x *c06Gen) ref(name string) string {
+	it := c06Item{name: name, q: "b"}
+	if c06NeedsQuote(name) || x.g.Intn(3) == 0 {
+		it.q = "q"
+	}
+	switch x.g.Intn(7) {
+	case 0, 1:
+		it.hasSchema = true
+		it.schema = x.pick("db_ks", "db_ks", "db_other", "db_plain", "DB_KS", "Db_Ks", "nodb")
+		it.sq = x.pick("b", "b", "q")
+		it.gap = core.Pick(x.g, c06Gaps)
+	}
+	return x.place(it)
+}
+
+func (x *c06Gen) table() string { return x.ref(x.recase(core.Pick(x.g, x.tables))) }
+
+// a table written in the template itself (always the same bare name)
+func (x *c06Gen) lit(name string) string { return x.place(c06Item{name: name, q: "b"}) }
+
+// an unquoted, unqualified reference (for the places where the name is glued to something)
+func (x *c06Gen) bare() string {
+	for i := 0; i < 20; i++ {
+		n := x.recase(core.Pick(x.g, x.tables))
+		// not a digit first: glued to five version digits it would be read as the sixth
+		if !c06NeedsQuote(n) && !(n[0] >= '0' && n[0] <= '9') {
+			return x.place(c06Item{name: n, q: "b"})
+		}
+	}
+	return x.lit("u")
+}
+
+// "/*!" + version, to be glued to what follows
+func (x *c06Gen) version() string {
+	return x.place(c06Item{version: true, m: x.g.Intn(4) == 0, digits: x.pick("50000", "40101", "32312", "100100", "080000", "999999")})
+}
+
+// the glue between a keyword and a table reference
 func (x *c06Gen) glue(tbl string) string {
-	switch x.g.Intn(12) {
+	switch x.g.Intn(22) {
 	case 0:
 		return "\n" + tbl
 	case 1:
@@ -356,7 +540,7 @@ func (x *c06Gen) glue(tbl string) string {
 	case 2:
 		return " /* c */ " + tbl
 	case 3:
-		if strings.HasPrefix(tbl, "`") {
+		if x.startsQuoted(tbl) {
 			return tbl
 		}
 		return "\t" + tbl
@@ -366,6 +550,24 @@ func (x *c06Gen) glue(tbl string) string {
 		return "  " + tbl
 	case 6:
 		return " -- c\n" + tbl
+	case 7:
+		return "(" + tbl + ")"
+	case 8:
+		// Unicode white space: the parser skips it before a token (after an identifier
+		// character it would continue the identifier: `from\u3000t` is one name)
+		return " " + x.pick("\u3000", "\u00a0", "\u2003", "\u0085", "\u2028", "\u1680", "\u205f", "\u3000\u00a0") + tbl
+	case 9:
+		// the reference inside an executable comment
+		if x.g.Intn(4) == 0 {
+			// directly after "/*!" a name that starts with digits would lose them as a version number
+			return " /*!" + x.bare() + x.pick("*/", " */")
+		}
+		return " " + x.pick("/*! ", "/*!50000 ", "/*!40101\t", "/*!M100100 ", "/*!999999 ") + tbl + x.pick("*/", " */")
+	case 10:
+		// … glued to its version number
+		return x.pick(" ", "", "\n") + x.version() + x.bare() + x.pick("*/", " */")
+	case 11:
+		return " #c\n" + tbl
 	}
 	return " " + tbl
 }
@@ -375,7 +577,7 @@ func (x *c06Gen) alias() string {
 }
 
 func (x *c06Gen) where() string {
-	switch x.g.Intn(8) {
+	switch x.g.Intn(10) {
 	case 0:
 		return ""
 	case 1:
@@ -386,28 +588,45 @@ func (x *c06Gen) where() string {
 		return " where note = '" + core.Pick(x.g, x.tables) + "'"
 	case 4:
 		return " where id = 1 /* " + core.Pick(x.g, x.tables) + " */"
+	case 5:
+		// string literals that hold comment marks around live SQL
+		return " where a = '/*' and id in (select id from" + x.glue(x.table()) + ") and b = '*/'"
 	}
 	return x.pick(" where id = 1", " where id=1 and name='x'", " WHERE id > 5 order by id limit 3", " where a.id = 3")
 }
 
 func (x *c06Gen) fromList() string {
 	s := x.glue(x.table()) + x.alias()
-	switch x.g.Intn(10) {
+	switch x.g.Intn(14) {
 	case 0, 1:
-		s += x.pick(",", ", ", " , ", ",\n") + x.table() + x.alias()
+		s += x.pick(",", ", ", " , ", ",\n", ",\u3000", ",/*c*/") + x.table() + x.alias()
 	case 2, 3:
-		s += x.pick(" join ", " left join ", " inner join ", " JOIN ", " straight_join ", " join\n") + x.table() + x.pick(" b", "") + x.pick(" on 1=1", " using (id)", "")
+		s += x.pick(" join ", " left join ", " inner join ", " JOIN ", " straight_join ", " join\n", " join \u00a0", " join/**/") + x.table() + x.pick(" b", "") + x.pick(" on 1=1", " using (id)", "")
 	case 4:
-		s = x.pick(" (select * from", " (select id from") + x.glue(x.table()) + ") x"
+		s = x.pick(" (select * from", " (select id from", "(select * from") + x.glue(x.table()) + ") x"
 	case 5:
 		s += "," + x.table() + "," + x.table()
+	case 6:
+		// the join inside an executable comment
+		s += " " + x.pick("/*!", "/*!50000 ", "/*!40101 ", "/*!M100100") + x.pick(", ", ",", "join ", "straight_join ") + x.table() + x.pick(" */", "*/")
+	case 7:
+		// a back-quoted name glued to the keywords around it
+		it := c06Item{name: x.recase(core.Pick(x.g, x.tables)), q: "q"}
+		s += " join" + x.place(it) + "on 1=1"
+	case 8:
+		// a comment in the middle of what looks like one name: two tokens, table and alias
+		n := core.Pick(x.g, x.tables)
+		if !c06NeedsQuote(n) && len(n) > 2 {
+			k := 1 + x.g.Intn(len(n)-1)
+			s += "," + x.lit(n[:k]) + "/**/" + n[k:]
+		}
 	}
 	return s
 }
 
 func (x *c06Gen) selectStmt() string {
-	s := x.pick("select", "SELECT", "Select", "select distinct", "select /* c */", "/* c */ select", "-- c\nselect", "select\n") +
-		x.pick(" *", " id, name", " count(*)", " a.*", " `from`", " 1") + x.pick(" from", " FROM", " From", "\nfrom") + x.fromList() + x.where()
+	s := x.pick("select", "SELECT", "Select", "select distinct", "select /* c */", "/* c */ select", "-- c\nselect", "select\n", "select '/*',") +
+		x.pick(" *", " id, name", " count(*)", " a.*", " `from`", " 1", " '*/'") + x.pick(" from", " FROM", " From", "\nfrom") + x.fromList() + x.where()
 	switch x.g.Intn(10) {
 	case 0:
 		s += x.pick(" union ", " union all ", " UNION\n") + "select * from" + x.glue(x.table())
@@ -415,6 +634,9 @@ func (x *c06Gen) selectStmt() string {
 		s = "(" + s + ")"
 	case 2:
 		s += x.pick(" for update", " lock in share mode", ";", " /* t_shard */", " -- t_shard")
+	case 3:
+		// the whole statement inside an executable comment
+		s = x.pick("/*!40101 ", "/*! ", "/*!50000\n") + s + " */"
 	}
 	return s
 }
@@ -424,16 +646,19 @@ func (x *c06Gen) insertStmt() string {
 	into := x.pick(" into", " INTO", " into", "", "\ninto")
 	t := x.table()
 	cols := x.pick("", "(id, name)", " (id, name)", "(id,name)")
-	if cols != "" && x.g.Intn(2) == 0 {
-		t += cols
-		cols = ""
-	} else {
-		t += cols
+	t += cols
+	if cols == "" {
+		// a name glued to VALUES is another name (in the vocabulary: t_shardvalues)
+		t += " "
 	}
-	vals := x.pick(" values (1, 'a')", " VALUES(1,'a')", "values(1,'a')", " set id = 1", " select * from"+x.glue(x.table()), " value (1, 'x'),(2, 't_shard')")
+	vals := x.pick(" values (1, 'a')", " VALUES(1,'a')", "values(1,'a')", " set id = 1", " select * from"+x.glue(x.table()), " value (1, 'x'),(2, 't_shard')",
+		" select * from "+x.lit("u")+" where id in (select id from"+x.glue(x.table())+")")
 	sp := " "
 	if into == "" && x.g.Intn(3) == 0 {
 		sp = "\n"
+	}
+	if x.g.Intn(8) == 0 {
+		sp = x.pick(" \u3000", "/*c*/", " /*!50000 */")
 	}
 	return kw + into + sp + t + vals
 }
@@ -457,7 +682,7 @@ func (x *c06Gen) deleteStmt() string {
 	kw := x.pick("delete", "DELETE", "delete low_priority", "delete quick")
 	switch x.g.Intn(6) {
 	case 0:
-		return kw + " a from" + x.glue(x.table()) + " a join " + x.table() + " b on 1=1" + x.where()
+		return kw + " " + x.lit("a") + " from" + x.glue(x.table()) + " a join " + x.table() + " b on 1=1" + x.where()
 	case 1:
 		return kw + " from " + x.table() + " using " + x.table() + " join " + x.table() + x.where()
 	case 2:
@@ -467,17 +692,72 @@ func (x *c06Gen) deleteStmt() string {
 }
 
 func (x *c06Gen) other() string {
+	switch x.g.Intn(50) {
+	case 0:
+		return "show create table " + x.table()
+	case 1:
+		return "explain select * from " + x.table()
+	case 2:
+		return x.pick("desc ", "describe ", "explain ") + x.table()
+	case 3:
+		return "truncate table " + x.table()
+	case 4:
+		return "/*!40101 select * from " + x.table() + " */"
+	case 5:
+		return "from " + x.table()
+	case 6:
+		return "update " + x.table()
+	case 7:
+		return "lock tables " + x.table() + " read, " + x.table() + " write"
+	case 8:
+		return "create table " + x.lit("x") + " like " + x.table()
+	case 9:
+		return "load data infile 'x' into table " + x.table()
+	case 10:
+		return "alter table " + x.table() + " add c int"
+	case 11:
+		return "select * into @a from " + x.table()
+	case 12:
+		return "with c as (select * from " + x.table() + ") select * from c"
+	case 13:
+		return "select * from " + x.lit("u") + " partition (p0), " + x.table()
+	case 14:
+		return "table " + x.table()
+	case 15:
+		return "select * from " + x.lit("u") + " natural join " + x.table()
+	case 16:
+		return "rename table " + x.table() + " to " + x.table()
+	case 17:
+		return "create table " + x.lit("x") + " as select * from " + x.table()
+	case 18:
+		return "create table " + x.lit("x") + " select * from " + x.table()
+	case 19:
+		return x.pick("show columns from ", "show full columns from ", "show index from ", "show fields in ") + x.table()
+	case 20:
+		return "handler " + x.table() + " open"
+	case 21:
+		return "drop table " + x.table() + ", " + x.table()
+	case 22:
+		return "explain delete from " + x.table() + " where id = 1"
+	case 23:
+		return "create view " + x.lit("v") + " as select * from " + x.table()
+	case 24:
+		return "select * from " + x.lit("u") + " where id = (select max(id) from " + x.table() + ")"
+	case 25:
+		return "analyze table " + x.table()
+	case 26:
+		return "use db_ks; select * from " + x.table()
+	case 27:
+		return "select 1; select * from " + x.table()
+	}
 	return x.pick("select 1", "select last_insert_id()", "select LAST_INSERT_ID( )", "select last_insert_id() as x", "select database()", "select now() from dual",
-		"show tables", "show create table "+x.table(), "explain select * from "+x.table(), "desc "+x.table(), "truncate table "+x.table(),
-		"set names utf8", "begin", "use db_ks", "/*!40101 select * from "+x.table()+" */", "select * from", "select * from ", "from "+x.table(),
-		"", " ", "select", "insert into", "update set", "update "+x.table(), "delete from", "lock tables "+x.table()+" read", "create table x like "+x.table(),
-		"select 't_shard'", "select * from u where x = \"from t_shard\"", "load data infile 'x' into table "+x.table(), "call p()", "alter table "+x.table()+" add c int",
-		"select * from u into outfile 'x'", "select * into @a from "+x.table(), "with c as (select * from "+x.table()+") select * from c",
-		"select * from u partition (p0), "+x.table(), "table "+x.table(), "values row(1)", "select * from u natural join "+x.table())
+		"show tables", "set names utf8", "begin", "use db_ks", "select * from", "select * from ", "", " ", "select", "insert into", "update set", "delete from",
+		"select 't_shard'", "select * from "+x.lit("u")+" where x = \"from t_shard\"", "call p()", "select * from "+x.lit("u")+" into outfile 'x'", "values row(1)")
 }
 
 var c06Soup = []string{"select", "from", "into", "set", "update", "insert", "replace", "delete", "join", "where", "values", ",", " ", " ", "\n", "(", ")", "`", ".", "*", "/*", "*/", "--", "'", "=", "1", ";",
-	"t_shard", "T_SHARD", "t_global", "t_child", "u", "db_ks", "db_ks.t_shard", "`t_shard`", "t_mixed", "x", "as", "on"}
+	"t_shard", "T_SHARD", "t_global", "t_child", "u", "db_ks", "db_ks.t_shard", "`t_shard`", "t_mixed", "x", "as", "on",
+	"/*!", "/*!50000", "/*!M100100", "\u3000", "\u00a0", "``", "`order-items`", "order", "items", "-", "#", "0", "M", "my table", "\"", "\\"}
 
 func (x *c06Gen) soup() string {
 	var b strings.Builder
@@ -493,10 +773,15 @@ func (x *c06Gen) soup() string {
 }
 
 func c06Vocabulary(c *c06Cfg) []string {
-	v := []string{"u", "u2", "plain", "t", "xt_shard", "t_shard_x", "t_shard2", "from_t", "settings", "t_glob", "dual"}
+	v := []string{"u", "u2", "plain", "t", "xt_shard", "t_shard_x", "t_shard2", "from_t", "settings", "t_glob", "t_shardvalues", "t_shard_0001", "t_shard0", "50000t_shard",
+		"order-lines", "my", "table", "items", "order items", "a``b", "t.shard"}
 	for _, r := range c.rules {
 		// sharded names several times: they are what the property is about
 		v = append(v, r.Table, r.Table, strings.ToLower(r.Table))
+		// a physical sub-table addressed directly
+		if !c06NeedsQuote(r.Table) {
+			v = append(v, strings.ToLower(r.Table)+"_0001")
+		}
 	}
 	if len(c.rules) == 0 {
 		v = append(v, "t_shard", "t_global")
@@ -504,17 +789,22 @@ func c06Vocabulary(c *c06Cfg) []string {
 	return v
 }
 
-func c06Line(e *c06Env, c *c06Cfg, db, sql string) core.Sexp {
+func c06Line(e *c06Env, c *c06Cfg, db, sql string, segs *core.Sexp) core.Sexp {
 	full, _, tabs, _ := c06Full(e, db, sql)
-	return core.L(core.A("fp"), c06RulesSexp(c), c06PhySexp(e),
+	xs := []core.Sexp{core.A("fp"), c06RulesSexp(c), c06PhySexp(e),
 		core.L(core.A("db"), core.Text(db)),
 		core.L(core.A("st"), core.I(int64(parser.Preview(sql)))),
 		core.L(core.A("sql"), core.Text(sql)),
 		core.L(core.A("full"), core.A(full)),
-		c06TabsSexp(tabs))
+		c06TabsSexp(tabs)}
+	if segs != nil {
+		xs = append(xs, *segs)
+	}
+	return core.L(xs...)
 }
 
-// the probed defects of the pinned tree (DESIGN.md C06): statement templates, %s = a sharded table
+// the probed defects of the pinned tree (DESIGN.md C06) and of the tree after the first repair:
+// statement templates, %s = a sharded table in lower case, %S in upper case
 var c06Probed = []string{
 	"select * from %S", "select * from u, %s", "select * from u join %s on u.id = %s.id", "select * from (select * from %s) x",
 	"select * from`%s`", "select * from u where id in (select id from %s)", "select * from/*c*/%s", "select * from\n%s", "select * from %s",
@@ -522,6 +812,9 @@ var c06Probed = []string{
 	"update %S set a = 1", "update u, %s set u.a = 1", "update u join %s on 1=1 set u.a = 1", "update %s\nset a = 1", "update %s a set a.x = 1",
 	"delete a from u a join %s b on 1=1", "delete from %S where id = 1", "delete from u where id in (select id from %s)",
 	"select * from u union select * from %s", "select * from db_ks.%S", "select * from `db_ks`.`%s`, u", "select * from DB_KS.%s",
+	"select * from u,\u3000%s", "select * from u,\u00a0%S where id = 1", "select * from u join \u2003%s b on 1=1", "delete from u where id in (select id from \u0085%s)",
+	"select * from u,/*!50000%s*/", "select * from u join/*!M100100%S */ on 1=1", "update u,/*!40101%s*/ set u.a=1", "insert into u select * from/*!999999%s*/",
+	"select * from u /*!50000 , %s */", "select '/*' from u, %S where b = '*/'", "replace /*! %s */ (id) values (1)",
 }
 
 func genC06(g *core.Gen) {
@@ -533,9 +826,8 @@ func genC06(g *core.Gen) {
 		}
 		x := &c06Gen{g: g, tables: c06Vocabulary(c)}
 		dbs := []string{"db_ks", "db_ks", "db_ks", "db_other", "db_plain", "", "DB_KS"}
-		emit := func(sql string, tag string) {
-			db := core.Pick(g, dbs)
-			line := c06Line(e, c, db, sql)
+		emitLine := func(db, sql string, segs *core.Sexp, tag string) {
+			line := c06Line(e, c, db, sql, segs)
 			full := line.Nth(6).Nth(1).Atom
 			pre := "N"
 			if ok, _, _ := e.vs.VerifPreBuildUnshardPlan(parser.Preview(sql), db, sql); ok {
@@ -543,16 +835,29 @@ func genC06(g *core.Gen) {
 			}
 			g.Emit(line, "cfg:"+c.name, tag, "db:"+db, "full:"+full, "pre:"+pre+"/full:"+full, "stmt:"+parser.StmtType(parser.Preview(sql)))
 		}
+		// a statement composed with placeholders: rendered, with its segments
+		emit := func(s string, tag string) {
+			sql, segs := x.resolve(s)
+			emitLine(core.Pick(g, dbs), sql, &segs, tag)
+		}
 		for _, r := range c.rules {
 			for _, tpl := range c06Probed {
-				sql := strings.ReplaceAll(strings.ReplaceAll(tpl, "%S", strings.ToUpper(r.Table)), "%s", strings.ToLower(r.Table))
+				quoted := func(n string) string {
+					if c06NeedsQuote(n) {
+						return c06Ident("q", n)
+					}
+					return n
+				}
+				if c06NeedsQuote(r.Table) && (strings.Contains(tpl, "`%") || strings.Contains(tpl, "/*!50000%") || strings.Contains(tpl, "100100%") || strings.Contains(tpl, "40101%") || strings.Contains(tpl, "999999%")) {
+					continue
+				}
+				sql := strings.ReplaceAll(strings.ReplaceAll(tpl, "%S", quoted(strings.ToUpper(r.Table))), "%s", quoted(strings.ToLower(r.Table)))
 				for _, db := range []string{"db_ks", ""} {
-					line := c06Line(e, c, db, sql)
-					g.Emit(line, "cfg:"+c.name, "probed", "full:"+line.Nth(6).Nth(1).Atom)
+					emitLine(db, sql, nil, "probed")
 				}
 			}
 		}
-		n := g.Scale(350, 5000)
+		n := g.Scale(300, 5000)
 		for i := 0; i < n; i++ {
 			emit(x.selectStmt(), "select")
 			if i%2 == 0 {
@@ -563,7 +868,7 @@ func genC06(g *core.Gen) {
 				if i%4 == 1 {
 					emit(x.other(), "other")
 				} else {
-					emit(x.soup(), "soup")
+					emitLine(core.Pick(g, dbs), x.soup(), nil, "soup")
 				}
 			}
 		}
